@@ -6,6 +6,7 @@ import (
 	"sort"
 
 	"verif/internal/core"
+	"verif/internal/sched"
 )
 
 // C08 — sliding windows report each slide-aligned interval with exactly its rows.
@@ -46,6 +47,10 @@ func runC08(ctx *core.Ctx) {
 	ctx.Cases("c08", n, 4*workers(), func(i int, r *rand.Rand) {
 		execC08(ctx, genEvSliding(core.CaseRef{Stream: "c08", Index: i}, r))
 	})
+	for k, v := range sched.Hits() {
+		ctx.Count("hook_hits."+k, v)
+	}
+	ctx.Count("perturbation_actions", sched.Acted())
 }
 
 func execC08(ctx *core.Ctx, c *evCase) {
